@@ -14,7 +14,7 @@ RULE = ("ops normal/student/chi/nd/ks; alpha: fixed grid 0.0005..0.9995 (accurac
         "replica of the loop; inconclusive if fewer than 20 rescaled cases), continued fraction without rescaling, density "
         "underflow |x| > 38.6, branch points 0, +-2.32, +-3.5; fine grids (49 points, relative step 2.5e-9) across the Chi_square "
         "polynomial switch |Normal(p)| = (n-1)/4 for n = 3..20, both signs, and 200 points (relative step 1.35e-6) at alpha = 1e-12 "
-        "for Normal (upward steps counted into the evidence; oracle failures once the findings are registered); distinct = distinct op line; non-trivial = alpha != 0.5 / x != 0")
+        "for Normal (every upward step is an oracle failure; C17-F2 is a known finding, C17-F3 is repaired); distinct = distinct op line; non-trivial = alpha != 0.5 / x != 0")
 TRUSTED = ["mpmath 30-digit erfc / regularised incomplete beta and gamma (quadrature of the density for dof > 5000) as the "
            "reference distribution functions (tools/gen/c17_ref.py, run with python3-vt)"]
 MODELLED = ["libm exp/log/pow/sqrt/sin/cos (shared by model execution and C++)",
@@ -276,9 +276,8 @@ def check(ctx, corr, w, scale, with_model=True):
     # ---------------- round 9: fine-grid monotonicity probes for two steps the coarse grid above cannot see
     # (a) Chi_square at the switch between its two polynomials, |Normal(p)| = (n-1)/4 (proved in the model for n = 9:
     #     C17_chi2_junction_step_9); (b) Normal below 1e-9: sawtooth of `f = 1 - f` (D close to 1 is quantised by 1.1e-16).
-    # Both are genuine (findings C17-F2, C17-F3 in notes/reports/C17.md).  The step sizes always go to the evidence; they become
-    # oracle failures (reported as KNOWN-FINDING) once the lead has registered the ids in known_findings.jsonl.
-    registered = {f.get("id") for f in load_findings(ID)}
+    # Both were genuine (findings C17-F2: recorded; C17-F3: repaired by /repo 708b5036, the probe stays as a regression test).
+    # Every upward step is an oracle failure; the step sizes also go to the evidence.
     ops, meta = [], []
     for n in range(3, 21):
         for sgn in (-1.0, 1.0):
@@ -293,9 +292,8 @@ def check(ctx, corr, w, scale, with_model=True):
         if (n, sgn) in prev and v > prev[(n, sgn)][0] + 1e-9:
             nstep += 1
             worst = max(worst, v - prev[(n, sgn)][0])
-            if "C17-F2" in registered:
-                w.fail(f"chi(., {n}) steps up by {v - prev[(n, sgn)][0]:.3g} at the polynomial switch |Normal(p)| = {(n - 1) / 4}: "
-                       f"{prev[(n, sgn)][1]} -> {prev[(n, sgn)][0]!r}, {op} -> {v!r}", [prev[(n, sgn)][1], op], "junction-chi", "chi")
+            w.fail(f"chi(., {n}) steps up by {v - prev[(n, sgn)][0]:.3g} at the polynomial switch |Normal(p)| = {(n - 1) / 4}: "
+                   f"{prev[(n, sgn)][1]} -> {prev[(n, sgn)][0]!r}, {op} -> {v!r}", [prev[(n, sgn)][1], op], "junction-chi", "chi")
         prev[(n, sgn)] = (v, op)
     corr.count("chi_junction_upward_steps", nstep)
     corr.maxstat("max_chi_junction_upward_step", worst)
@@ -308,9 +306,8 @@ def check(ctx, corr, w, scale, with_model=True):
         if pv is not None and v > pv + 1e-9:
             nstep += 1
             worst = max(worst, v - pv)
-            if "C17-F3" in registered:
-                w.fail(f"Normal not monotone near 1e-12: {pop} -> {pv!r} < {op} -> {v!r} (step {v - pv:.3g})", [pop, op],
-                       "sawtooth-normal", "normal")
+            w.fail(f"Normal not monotone near 1e-12: {pop} -> {pv!r} < {op} -> {v!r} (step {v - pv:.3g})", [pop, op],
+                   "sawtooth-normal", "normal")
         pv, pop = v, op
     corr.count("normal_sawtooth_upward_steps", nstep)
     corr.maxstat("max_normal_sawtooth_step", worst)
